@@ -831,15 +831,21 @@ func (r *runningStep) processInput(input executeInput) {
 		unresolvableStage = StageIDOutputs
 		unresolvableError = fmt.Errorf("foreach subworkflow failed with errors (%v)", errors)
 		outputID = "error"
-		dataMap := make(map[int]any, len(input.data))
+		// The declared schema has integer keys, and integers are int64 in the data model;
+		// expressions could not look up an item in a map keyed by int.
+		dataMap := make(map[int64]any, len(input.data))
 		for i, entry := range outputs {
 			if entry != nil {
-				dataMap[i] = entry
+				dataMap[int64(i)] = entry
 			}
+		}
+		errorMap := make(map[int64]string, len(errors))
+		for i, itemError := range errors {
+			errorMap[int64(i)] = itemError
 		}
 		outputData = map[string]any{
 			"data":   dataMap,
-			"errors": errors,
+			"errors": errorMap,
 		}
 	} else {
 		r.currentStage = StageIDOutputs
